@@ -430,17 +430,17 @@ def _addr(real_calls: list[str]) -> str:
 def run(chk) -> None:
     rnd = random.Random(chk.seed)
     quick = chk.tier == "quick"
-    hists = [[CONNECT] + h for h in CORE] + [[CONNECT] + _random_hist(rnd) for _ in range(10 if quick else 60)]
+    hists = [[CONNECT] + h for h in CORE] + [[CONNECT] + _random_hist(rnd) for _ in range(6 if quick else 60)]
     # stage 1: every history to the end (clean exit / exception exit); gives the real engine-call log
     jobs1 = []
     for hi, h in enumerate(hists):
         jobs1.append({"hi": hi, "hist": h, "kill": None, "mode": "clean", "schema_opt": False})
         jobs1.append({"hi": hi, "hist": h, "kill": None, "mode": "raise", "schema_opt": hi % 2 == 0})
-    jobs1.append({"hi": 0, "hist": hists[7], "mode": "memory"})
+    jobs1.append({"hi": 0, "hist": hists[0], "mode": "memory"})
     jobs1.append({"hi": 0, "hist": hists[2], "mode": "memory"})
     res1 = [r for shard in common.shard_map(_worker, common.chunks(jobs1, 16)) for r in shard]
     res1 = dict(zip([id(j) for shard in common.chunks(jobs1, 16) for j in shard], res1))
-    totals = {}
+    totals, firstlen = {}, {}
     for j in jobs1:
         r = res1[id(j)]
         if j["mode"] == "memory":
@@ -448,6 +448,7 @@ def run(chk) -> None:
             continue
         if j["mode"] == "clean":
             totals[j["hi"]] = sum(len(c) for c in r["calls"])
+            firstlen[j["hi"]] = len(r["calls"][0]) if r["calls"] else 0
     # stage 2: kill points
     jobs2 = []
     for f in sorted((common.CORPUS / "C18").glob("*.json")):
@@ -455,12 +456,13 @@ def run(chk) -> None:
         jobs2.append({"hi": -1, "hist": c["hist"], "kill": c["kill"], "mode": c["kind"], "schema_opt": c.get("schema_opt", False)})
     for hi, h in enumerate(hists):
         total = totals.get(hi, 0)
-        ks = list(range(total + 1))
+        # kill points inside the connect bootstrap are the same for every history: all of them once (history 0)
+        ks = [k for k in range(total + 1) if hi == 0 or k >= firstlen.get(hi, 0)]
         core = hi < len(CORE)
         if quick:
-            keep = total + 1 if (core and hi < 7) else 8
+            keep = len(ks) if hi in (0, 2, 3, 4) else (6 if core else 5)
         else:
-            keep = total + 1 if core else 16
+            keep = len(ks) if core else 16
         if keep < len(ks):
             ks = sorted(rnd.sample(ks, keep))
         for k in ks:
@@ -468,7 +470,7 @@ def run(chk) -> None:
     # two-phase: a second process continues on the directory left by a killed first one
     for hi in ([0, 3, 6] if quick else range(len(CORE))):
         total = totals.get(hi, 0)
-        for k in rnd.sample(range(total + 1), 3 if quick else 6):
+        for k in rnd.sample(range(total + 1), 2 if quick else 6):
             jobs2.append({"hi": hi, "hist": hists[hi], "kill": k, "mode": "kill2", "schema_opt": False,
                           "hist2": None})  # hist2 filled in below, after asking the model which schema exists
     # ask the model about phase 1 of the two-phase jobs to know whether S1 / the table exist
@@ -579,6 +581,10 @@ def _check_point(chk, job, r, rep) -> None:
         chk.count("interrupted:" + (job["hist"][int(rep["stmt"])][0] if int(rep["stmt"]) < len(job["hist"]) and rep["j"] != "0" else "boundary"))
     before, after = _heal(_canon_model(rep["before"]), so), _heal(_canon_model(rep["after"]), so)
     allowed = [before, after] if mode == "kill" else [impl]
+    if mode == "kill" and int(rep["stmt"]) < len(job["hist"]) and job["hist"][int(rep["stmt"])][0] == "N":
+        # connect() is not a SQL statement: its bootstrap (database file, info-schema extensions, schema) is a ladder of
+        # independent idempotent steps that the next connect() completes; every prefix is a legitimate state
+        allowed = [impl]
     key = rep.get("finding", "-")
     where = (f"killed before engine call {job['kill']} (inside statement #{rep['stmt']} `{job['hist'][int(rep['stmt'])] if int(rep['stmt']) < len(job['hist']) else 'end'}`, "
              f"{rep['j']} of its calls done)") if mode == "kill" else f"{mode} exit"
